@@ -8,6 +8,33 @@ SUPPORT_RS = r'''
 use core::cmp::Ordering;
 use core::hash::{Hash, Hasher};
 
+/// decoy trait, implemented for everything and brought into scope (unnamed) next to every derive_ex item of the comparison family:
+/// BY-VALUE methods named like the trait methods generated code might be tempted to call with method syntax. Method probing finds a
+/// by-value method before the std `&self` one, so `a.cmp(&b)` in generated code would silently land here; fully qualified calls do not.
+pub mod hijack {
+use core::cmp::Ordering;
+pub trait HijackAll: Sized {
+    fn cmp(self, _o: &Self) -> Ordering { Ordering::Equal }
+    fn partial_cmp(self, _o: &Self) -> Option<Ordering> { None }
+    fn eq(self, _o: &Self) -> bool { false }
+    fn ne(self, _o: &Self) -> bool { false }
+    fn hash<H>(self, _h: &mut H) {}
+    fn clone(self) -> Self { self }
+    fn then(self, _o: Ordering) -> Ordering { Ordering::Equal }
+    fn then_with<F>(self, _f: F) -> Ordering { Ordering::Equal }
+    fn reverse(self) -> Self { self }
+    fn is_eq(self) -> bool { false }
+    fn is_ne(self) -> bool { false }
+    fn map<F>(self, _f: F) -> Self { self }
+    fn fmt(self, _f: &mut core::fmt::Formatter<'_>) -> core::fmt::Result { Ok(()) }
+    fn write_u8(self, _v: u8) {}
+    fn write_usize(self, _v: usize) {}
+    fn write_isize(self, _v: isize) {}
+    fn write_u64(self, _v: u64) {}
+}
+impl<T> HijackAll for T {}
+}
+
 /// Source of input bytes: symbolic under Kani, a recorded vector in native replay.
 pub trait Src { fn u8(&mut self) -> u8; }
 #[cfg(kani)]
